@@ -212,6 +212,13 @@ def oracle(tree, path, before, after, status):
                 return ("fsrm-left-behind", "remove(%r) reported success but %r still exists" % (path, q))
     elif plain and before != after:
         return ("fsrm-error-changed-tree", "remove(%r) reported %s but changed the tree" % (path, status))
+    elif plain:
+        # "every path meeting those conditions is removed": an existing directory, or an existing file or link spelled
+        # without a trailing separator, must not be refused (the harness runs with full permissions)
+        e = lookup(tree, loc)
+        if e is not None and (e[0] == "d" or not path.endswith("/")):
+            return ("fsrm-left-behind", "remove(%r) reported %s and left the existing %s in place"
+                    % (path, status, {"d": "directory", "f": "file", "l": "symbolic link"}[e[0]]))
     return None
 
 
